@@ -77,9 +77,26 @@ def check_property_file(pid, rundir):
     src = os.path.join(COQ, "Properties_%s.v" % pid)
     txt = open(src).read()
     theorems = re.findall(r"^\s*Theorem\s+(\w+)", txt, flags=re.M)
-    work = os.path.join(rundir, "PropCheck_%s.v" % pid)
-    shutil.copy(src, work)
-    rc, out = sh(["timeout", "900", "coqc", "-Q", COQ, "HV", work], cwd=rundir, timeout=1000)
+    # the re-check is cached by the content of the whole development (any .v change invalidates it)
+    h = hashlib.sha256()
+    for v in sorted(glob.glob(os.path.join(COQ, "*.v"))):
+        h.update(os.path.basename(v).encode()); h.update(open(v, "rb").read())
+    cdir = os.path.join(CACHE, "propcheck"); os.makedirs(cdir, exist_ok=True)
+    cfile = os.path.join(cdir, "%s-%s.json" % (pid, h.hexdigest()[:20]))
+    if os.path.exists(cfile):
+        try:
+            c = json.load(open(cfile)); rc, out = c["rc"], c["out"]
+        except Exception:
+            rc, out = None, None
+    else:
+        rc, out = None, None
+    if rc is None:
+        work = os.path.join(rundir, "PropCheck_%s.v" % pid)
+        shutil.copy(src, work)
+        rc, out = sh(["timeout", "900", "coqc", "-Q", COQ, "HV", work], cwd=rundir, timeout=1000)
+        if not os.path.exists(os.path.join(COQ, "Properties_%s.vo" % pid)): rc = rc or 1      # the full build must have produced it too
+        json.dump(dict(rc=rc, out=out), open(cfile + ".tmp", "w")); os.replace(cfile + ".tmp", cfile)
+        for old in sorted(glob.glob(os.path.join(cdir, "%s-*.json" % pid)), key=os.path.getmtime)[:-3]: os.remove(old)
     discharged = len(theorems)
     if rc != 0:
         m = re.search(r"line (\d+), characters", out)
